@@ -96,6 +96,8 @@ def render_inputs(runs: Sequence[dict]) -> str:
         out.append(f"passes {int(run.get('passes', 0))}")
         if run.get("t0"):
             out.append(f"t0 {int(run['t0'])}")
+        if run.get("wrap") is not None:
+            out.append(f"wrap {int(run['wrap'])}")
         if run.get("maxev"):
             out.append(f"maxev {int(run['maxev'])}")
         if run.get("lcdquiet"):
